@@ -145,6 +145,49 @@ func genScenario(r *hk.Rand, proto int, idx int) scenario {
 		sc.Req = append(sc.Req, hdrOp{Kind: "nc", K: "cookie", V: "raw=1; raw2=2"})
 		names = append(names, "cookie")
 	}
+	if r.Chance(18) {
+		// a field HTTP/2 and HTTP/3 forbid (connection-specific) or write themselves (host,
+		// content-length), under a spelling that is NOT the canonical map key: it must be omitted
+		// there whatever the spelling. On HTTP/1.1 only the harmless ones are generated (a second
+		// host / content-length / transfer-encoding line would change the framing of the request).
+		pool := []string{"connection", "keep-alive", "proxy-connection"}
+		if proto != 1 {
+			pool = append(pool, "upgrade", "transfer-encoding", "host", "content-length")
+		}
+		nm := hk.Pick(r, pool)
+		k := recase(r, nm)
+		if r.Chance(40) {
+			k = nm
+		}
+		v := map[string]string{"connection": "keep-alive", "keep-alive": "timeout=5", "proxy-connection": "keep-alive",
+			"upgrade": "websocket", "transfer-encoding": "chunked", "host": "other.example", "content-length": "7"}[nm]
+		op := hdrOp{Kind: "nc", K: k, V: v}
+		if r.Chance(70) {
+			sc.Req = append(sc.Req, op)
+		} else {
+			sc.Cli = append(sc.Cli, op)
+		}
+		names = append(names, nm)
+	}
+	if r.Chance(12) {
+		// names differing only in case: several map keys, one field name
+		nm := hk.Pick(r, []string{"x-case", "x-dup-name", "accept"})
+		seen := map[string]bool{}
+		for i := 0; i < r.Range(2, 3); i++ {
+			k := recase(r, nm)
+			if i == 0 {
+				k = strings.ToLower(nm)
+			} else if i == 1 {
+				k = strings.ToUpper(nm)
+			}
+			if seen[k] {
+				continue
+			}
+			seen[k] = true
+			sc.Req = append(sc.Req, hdrOp{Kind: "nc", K: k, V: genValue(r)})
+		}
+		names = append(names, nm)
+	}
 	if r.Chance(35) {
 		for i := 0; i < r.Range(1, 3); i++ {
 			sc.ReqCookies = append(sc.ReqCookies, cookieJ{fmt.Sprintf("rc%d", i), fmt.Sprintf("val%d", r.Intn(1000))})
@@ -262,11 +305,8 @@ func expected(sc scenario) expectation {
 			}
 			continue
 		}
-		if sc.Proto != 1 {
-			switch lk {
-			case "connection", "keep-alive", "proxy-connection", "transfer-encoding", "upgrade":
-				continue // connection-specific: omitted on HTTP/2 and HTTP/3
-			}
+		if sc.Proto != 1 && forbiddenH23[lk] {
+			continue // connection-specific / written by the protocol itself: omitted on HTTP/2 and HTTP/3
 		}
 		for _, v := range vs {
 			e.fields = append(e.fields, origin.Field{Name: k, Value: strings.Trim(v, " \t")})
@@ -455,6 +495,23 @@ func oracle(r *hk.Run, sc scenario, obs origin.Obs) {
 			fail("bookkeeping-on-wire", "internal bookkeeping key transmitted", f, nil)
 		}
 	}
+	// fields a protocol forbids are omitted - under every spelling the caller may have used
+	if sc.Proto != 1 {
+		ncl := 0
+		for _, f := range regular {
+			ln := strings.ToLower(f.Name)
+			if ln == "content-length" {
+				ncl++
+				if ncl > 1 || f.Value != fmt.Sprint(sc.BodyLen) {
+					fail("forbidden-on-wire:content-length", "a caller-supplied content-length reached the wire next to / instead of the automatic one", f, sc.BodyLen)
+				}
+				continue
+			}
+			if forbiddenH23[ln] {
+				fail("forbidden-on-wire:"+ln, "a field the protocol forbids was transmitted instead of omitted", f, nil)
+			}
+		}
+	}
 	// automatic fields are set aside, the rest must be exactly the caller's set
 	var rest []origin.Field
 	var ua, cookies []string
@@ -529,6 +586,11 @@ func oracle(r *hk.Run, sc scenario, obs origin.Obs) {
 		}
 	}
 }
+
+// RFC 9113 8.2.2 / RFC 9114 4.2: connection-specific fields must not be sent; Host is carried by
+// :authority; the content-length the protocol writer computes is the only one.
+var forbiddenH23 = map[string]bool{"connection": true, "keep-alive": true, "proxy-connection": true,
+	"transfer-encoding": true, "upgrade": true, "host": true, "content-length": true}
 
 func callerSet(sc scenario, canonical string) bool {
 	for _, l := range [][]hdrOp{sc.Req, sc.Cli, presetOps(sc.Preset)} {
